@@ -128,6 +128,28 @@ def allMentionsExempt (body : T) : Bool :=
   (T.allNodes body).all fun m => !isMsgSenderExpr m || mentionExempt body m
 
 
+/-! Occurrence-based form of the same exemption, as a structural recursion: `inSd` — an ancestor is the argument
+list of a selfdestruct/suicide call; `conv` — this term is a direct argument of a call whose callee is a type. -/
+mutual
+/-- some occurrence of `msg.sender` in `t` is not exempt -/
+def nonExempt (inSd conv : Bool) : T → Bool
+  | .node tag ks =>
+    (isMsgSenderExpr (.node tag ks) && !inSd && !conv) ||
+    (if tag = .Statement_Assembly then false else
+      match tag, ks with
+      | .Expression_FunctionCall, [l, callee, .node .Vec items] =>
+        nonExempt inSd false l || nonExempt inSd false callee ||
+          nonExemptL (inSd || isSelfdestructName callee) (callee.tag? == some .Expression_Type) items
+      | _, ks => nonExemptL inSd false ks)
+  | _ => false
+def nonExemptL (inSd conv : Bool) : List T → Bool
+  | [] => false
+  | k :: ks => nonExempt inSd conv k || nonExemptL inSd conv ks
+end
+
+/-- every mention of `msg.sender` in the body is exempt (occurrence by occurrence) -/
+def mentionsOnlyExempt (body : T) : Bool := !nonExempt false false body
+
 /-- the fields of a contract-level function definition -/
 def contractFunctionFields : T → Option (List T)
   | .node .ContractPart_FunctionDefinition [.node .S_FunctionDefinition fields] => some fields
@@ -166,7 +188,7 @@ def selfdestructSites (f : T) : List (List T × T × T) :=
 /-- MUST report (as the property words it): not a constructor, public or external, no `only`
 modifier, and every mention of `msg.sender` exempt -/
 def mustReport (fields : List T) (body : T) : Bool :=
-  !isConstructor fields && isPublicOrExternal fields && !hasOnlyModifier fields && allMentionsExempt body
+  !isConstructor fields && isPublicOrExternal fields && !hasOnlyModifier fields && mentionsOnlyExempt body
 
 def declaresInternalOrPrivate (fields : List T) : Bool :=
   (fnVisibilities fields).any (fun v => v = .Visibility_Internal || v = .Visibility_Private)
